@@ -508,7 +508,7 @@ def required(table, min_per_function=1):
 def replay(prop, table, case, rec, tol_exp=8):
     c = case['case']
     fname = c.get('function')
-    regs = [rg for rg in table.get(fname, []) if rg.label == c.get('regime')]
+    regs = [rg for rg in table.get(fname, []) if rg.label in (c.get('regime'), 'exact/%s' % c.get('regime'))]
     if not regs:
         rec.undecided('replay: regime not found')
         return
